@@ -1,5 +1,6 @@
 import Std.Data.HashMap
 import MxV.Model.Msimple
+import MxV.Model.Mslot
 import MxV.Model.Mfull
 import MxV.Model.Element
 import MxV.Model.Serialize
@@ -125,9 +126,22 @@ def dedup (l : List Nat) : List Nat :=
 def usesMatcher (i : Inst) : Bool := i.chk && i.hasTree
 
 def obsSimple (i : Inst) : String :=
-  let ord := if usesMatcher i then Msimple.ordered i.p i.kids else i.kids
-  let req := if usesMatcher i then Msimple.required i.p i.kids else []
-  s!"o={joinNat (Msimple.ids ord)} u={joinNat (Msimple.ids i.kids)} r={joinNat req}"
+  let ord := if usesMatcher i then Mslot.ordered i.p i.kids else i.kids
+  let req := if usesMatcher i then Mslot.required i.p i.kids else []
+  -- on Tame templates the older, theorem-carrying model Msimple must say the same
+  let cross := usesMatcher i && Msimple.isTame i.p &&
+    (Msimple.ordered i.p i.kids != ord || Msimple.required i.p i.kids != req)
+  s!"o={joinNat (Msimple.ids ord)} u={joinNat (Msimple.ids i.kids)} r={joinNat req}" ++ (if cross then " !MSIMPLE-MISMATCH" else "")
+
+/-- Mslot.add, cross-checked against Msimple.add on Tame templates -/
+def addSimple (p : Particle) (k : Msimple.Kids) (cid n : Nat) (fwd : Option Int) : Except Msimple.Err Msimple.Kids :=
+  let r := Mslot.add p k cid n fwd
+  if Msimple.isTame p then
+    match r, Msimple.add p k cid n fwd with
+    | .ok a, .ok b => if a == b then r else .error .unmodelled
+    | .error a, .error b => if a == b then r else .error .unmodelled
+    | _, _ => .error .unmodelled
+  else r
 
 def obsFull (a : Mfull.Arena) : String × Mfull.Arena :=
   let (r, a1) := Mfull.run a Mfull.orderedChildren
@@ -165,7 +179,7 @@ def setAttrE (e : EInfo) (s : Element.Store) (key : String) (v : PyVal) : Except
 
 def mkInst (e : EInfo) (chk : Bool) (v : PyVal) : Inst :=
   match e.tkey.bind (fun t => lookupT t Gen.implTemplates) with
-  | some p => { info := some e, p := p, hasTree := true, chk := chk, kids := [], tame := Msimple.isTame p,
+  | some p => { info := some e, p := p, hasTree := true, chk := chk, kids := [], tame := Mslot.isSlotted p,
                 full := Mfull.newInstance p, value := v }
   | none => { info := some e, p := .seq 1 (some 1) [], hasTree := false, chk := chk, kids := [], tame := false,
               full := {}, value := v }
@@ -312,7 +326,7 @@ def step (st : St) (line : String) : St × String :=
     | some i, some t, some c =>
       match lookupT t Gen.implTemplates with
       | some p =>
-        let inst : Inst := { info := none, p := p, hasTree := true, chk := c == 1, kids := [], tame := Msimple.isTame p,
+        let inst : Inst := { info := none, p := p, hasTree := true, chk := c == 1, kids := [], tame := Mslot.isSlotted p,
                              full := Mfull.newInstance p }
         ({ st with insts := st.insts.insert i inst }, "ok|ok")
       | none => (st, "bad-type")
@@ -452,7 +466,7 @@ def step (st : St) (line : String) : St × String :=
           let st1 := if rf.toBool then setParent st cid (some i) else st
           if !inst.tame then ({ st1 with insts := st1.insts.insert i inst }, both (resF rf) "-")
           else
-            match Msimple.add inst.p inst.kids cid n fwd with
+            match addSimple inst.p inst.kids cid n fwd with
             | .ok k => ({ st1 with insts := st1.insts.insert i { inst with kids := k } }, both (resF rf) "ok")
             | .error .unmodelled => ({ st1 with insts := st1.insts.insert i { inst with tame := false } }, both (resF rf) "-")
             | .error e => ({ st1 with insts := st1.insts.insert i inst }, both (resF rf) ("err:" ++ e.str))
@@ -522,7 +536,7 @@ def step (st : St) (line : String) : St × String :=
             | .ok l => joinNat l
             | .error e => "err:" ++ e.str
           ({ st with insts := st.insts.insert i { inst with full := a' } },
-            both ("r=" ++ rs) (if inst.tame then "r=" ++ joinNat (Msimple.required inst.p inst.kids) else "-"))
+            both ("r=" ++ rs) (if inst.tame then "r=" ++ joinNat (Mslot.required inst.p inst.kids) else "-"))
     | _, _ => (st, "bad-op")
   | ["probe", i] =>
     match i.toNat? with
@@ -542,8 +556,8 @@ def step (st : St) (line : String) : St × String :=
             | .error e => s!"{n}:ok:err:{e.str}"
           | .error e => s!"{n}:err:{e.str}:")
         let partsS := alpha.map (fun n =>
-          match Msimple.add inst.p inst.kids 1000000 n with
-          | .ok k => s!"{n}:ok:{joinNat (Msimple.required inst.p k)}"
+          match addSimple inst.p inst.kids 1000000 n none with
+          | .ok k => s!"{n}:ok:{joinNat (Mslot.required inst.p k)}"
           | .error e => s!"{n}:err:{e.str}:")
         (st, both ("p=" ++ ";".intercalate partsF) (if inst.tame then "p=" ++ ";".intercalate partsS else "-"))
     | none => (st, "bad-op")
@@ -603,7 +617,7 @@ def step (st : St) (line : String) : St × String :=
   | ["tame", t] =>
     match t.toNat? with
     | some t => match lookupT t Gen.implTemplates with
-      | some p => (st, if Msimple.isFlat p then "flat" else if Msimple.isTame p then "rootchoice" else "wild")
+      | some p => (st, if Msimple.isFlat p then "flat" else if Msimple.isTame p then "rootchoice" else if Mslot.isSlotted p then "slotted" else "wild")
       | none => (st, "bad-type")
     | none => (st, "bad-op")
   | [] => (st, "")
